@@ -1110,7 +1110,7 @@ func (r *runner) monitor(body []byte) {
 	on := decodeObs(body, true, true)
 	off := decodeObs(body, false, true)
 	if on != off {
-		key, what := classify(on, off)
+		key, what := classify(on, off, body)
 		replay := "dec " + hx(body)
 		if len(body) > 4096 {
 			replay = fmt.Sprintf("dec <%d bytes, prefix %s>", len(body), hx(body[:64]))
@@ -1150,24 +1150,145 @@ func colNamesOf(obs string) string {
 	return strings.Join(names, ",")
 }
 
-func classify(on, off string) (string, string) {
+// ---- a minimal msgpack walker, used only to attribute a difference to its root cause
+
+func beN(b []byte, p, k int) (int, bool) {
+	if p+k > len(b) {
+		return 0, false
+	}
+	v := 0
+	for i := 0; i < k; i++ {
+		v = v<<8 | int(b[p+i])
+	}
+	return v, true
+}
+
+// header of a length-carrying value at p: (count, position after header, kind) kind: 's' str, 'b' bin, 'a' array, 'm' map, 'e' ext
+func hdr(b []byte, p int) (n, np int, kind byte, ok bool) {
+	if p >= len(b) {
+		return 0, 0, 0, false
+	}
+	c := b[p]
+	switch {
+	case c >= 0x80 && c <= 0x8f:
+		return int(c & 0xf), p + 1, 'm', true
+	case c >= 0x90 && c <= 0x9f:
+		return int(c & 0xf), p + 1, 'a', true
+	case c >= 0xa0 && c <= 0xbf:
+		return int(c & 0x1f), p + 1, 's', true
+	}
+	tab := map[byte]struct {
+		k    int
+		kind byte
+	}{0xc4: {1, 'b'}, 0xc5: {2, 'b'}, 0xc6: {4, 'b'}, 0xc7: {1, 'e'}, 0xc8: {2, 'e'}, 0xc9: {4, 'e'},
+		0xd9: {1, 's'}, 0xda: {2, 's'}, 0xdb: {4, 's'}, 0xdc: {2, 'a'}, 0xdd: {4, 'a'}, 0xde: {2, 'm'}, 0xdf: {4, 'm'}}
+	if t, found := tab[c]; found {
+		v, ok := beN(b, p+1, t.k)
+		return v, p + 1 + t.k, t.kind, ok
+	}
+	return 0, 0, 0, false
+}
+
+func skipVal(b []byte, p int) (int, bool) {
+	if p >= len(b) {
+		return 0, false
+	}
+	c := b[p]
+	fixed := map[byte]int{0xc0: 0, 0xc2: 0, 0xc3: 0, 0xca: 4, 0xcb: 8, 0xcc: 1, 0xcd: 2, 0xce: 4, 0xcf: 8, 0xd0: 1, 0xd1: 2, 0xd2: 4, 0xd3: 8,
+		0xd4: 2, 0xd5: 3, 0xd6: 5, 0xd7: 9, 0xd8: 17}
+	if c <= 0x7f || c >= 0xe0 {
+		return p + 1, true
+	}
+	if k, ok := fixed[c]; ok {
+		return p + 1 + k, p+1+k <= len(b)
+	}
+	n, np, kind, ok := hdr(b, p)
+	if !ok {
+		return 0, false
+	}
+	switch kind {
+	case 's', 'b':
+		return np + n, np+n <= len(b)
+	case 'e':
+		return np + 1 + n, np+1+n <= len(b)
+	case 'm':
+		n *= 2
+	}
+	for i := 0; i < n; i++ {
+		if np, ok = skipVal(b, np); !ok {
+			return 0, false
+		}
+	}
+	return np, true
+}
+
+// shadowedDup: the top-level "columns" map has a key with an array value and LATER a non-array value.
+func shadowedDup(b []byte) bool {
+	n, p, kind, ok := hdr(b, 0)
+	if !ok || kind != 'm' {
+		return false
+	}
+	for i := 0; i < n; i++ {
+		kl, kp, kk, ok := hdr(b, p)
+		if !ok || kk != 's' || kp+kl > len(b) {
+			return false
+		}
+		key := string(b[kp : kp+kl])
+		p = kp + kl
+		if key == "columns" {
+			cn, cp, ck, ok := hdr(b, p)
+			if ok && ck == 'm' {
+				arr := map[string]bool{}
+				for j := 0; j < cn; j++ {
+					l, q, k2, ok := hdr(b, cp)
+					if !ok || k2 != 's' || q+l > len(b) {
+						break
+					}
+					name := string(b[q : q+l])
+					cp = q + l
+					_, _, vk, vok := hdr(b, cp)
+					isArr := vok && vk == 'a'
+					if isArr {
+						arr[name] = true
+					} else if arr[name] {
+						return true
+					}
+					if cp, ok = skipVal(b, cp); !ok {
+						break
+					}
+				}
+			}
+		}
+		if p, ok = skipVal(b, p); !ok {
+			return false
+		}
+	}
+	return false
+}
+
+// classify attributes an ON/OFF difference to a root cause where one is recognised (stable keys).
+func classify(on, off string, body []byte) (string, string) {
 	aOn, aOff := accepted(on), accepted(off)
+	if aOn && !aOff && strings.HasPrefix(off, "panic:") {
+		return "accept-differs:typed-Skip-vs-generic-Unmarshal:panic", "flag ON accepts a body on which flag OFF panics inside msgpack.Unmarshal (a value the typed path only Skip()s)"
+	}
+	if aOn && !aOff && off == "E:unmarshal" {
+		return "accept-differs:typed-Skip-vs-generic-Unmarshal:error", "flag ON accepts a body flag OFF rejects: a value the typed path only Skip()s cannot be unmarshalled by the generic path"
+	}
+	if aOn && shadowedDup(body) {
+		return "columns-differ:duplicate-column-key-array-then-non-array", "a column key carries an array and later a non-array value: flag ON keeps the array column, flag OFF (last-wins map) drops it (different column set / generated instead of supplied time / rejection when no column is left)"
+	}
 	switch {
 	case aOn && !aOff:
-		switch {
-		case strings.HasPrefix(off, "panic:"):
-			return "accept-differs:typed-Skip-vs-generic-Unmarshal:panic", "typed path accepts a body on which the generic path panics in msgpack.Unmarshal"
-		case off == "E:unmarshal":
-			return "accept-differs:typed-Skip-vs-generic-Unmarshal:error", "typed path accepts a body the generic path rejects (skipped value cannot be unmarshalled)"
-		case strings.HasPrefix(off, "E:"):
-			return "accept-differs:typed-accepts:generic-decode-rejects", "typed path accepts a body the generic decoder rejects"
+		if strings.HasPrefix(off, "E:") {
+			return "accept-differs:typed-accepts:generic-decode-rejects", "flag ON accepts a body the generic decoder rejects"
 		}
-		return "accept-differs:typed-accepts:generic-typing-rejects", "typed path accepts a body convertColumnsToTyped rejects"
+		return "accept-differs:typed-accepts:generic-typing-rejects", "flag ON accepts a body convertColumnsToTyped rejects"
 	case !aOn && aOff:
-		return "accept-differs:typed-rejects:generic-accepts", "flag on rejects a body that flag off accepts"
+		return "accept-differs:typed-rejects:generic-accepts", "flag ON rejects a body that flag OFF accepts"
 	case aOn && aOff:
 		if colNamesOf(on) != colNamesOf(off) {
-			return "stored-differs:column-set:decodeTypedColumns-nonarray-duplicate", "stored column set differs (a duplicate column key whose later value is not an array)"
+			return "stored-differs:column-set", "stored column set differs"
 		}
 		return "stored-differs:values-types-or-nulls", "same columns, different measurement / type / values / null positions / row count / signature"
 	}
